@@ -346,7 +346,10 @@ func (ctrler *RigoApp) deliverTxSync(req abcitypes.RequestDeliverTx) abcitypes.R
 		xerr = xerrors.ErrDeliverTx.Wrap(xerr)
 		ctrler.logger.Error("deliverTxSync", "error", xerr)
 
-		if txctx.Tx != nil {
+		// NewTrxContext returns a nil context together with an error
+		// (undecodable tx, unknown sender, ...): there is nothing to add events to.
+		var events []abcitypes.Event
+		if txctx != nil && txctx.Tx != nil {
 			// add event
 			txctx.Events = append(txctx.Events, abcitypes.Event{
 				Type: "tx",
@@ -356,12 +359,13 @@ func (ctrler *RigoApp) deliverTxSync(req abcitypes.RequestDeliverTx) abcitypes.R
 					{Key: []byte(rctypes.EVENT_ATTR_TXSTATUS), Value: []byte{byte(xerr.Code())}, Index: false},
 				},
 			})
+			events = txctx.Events
 		}
 
 		return abcitypes.ResponseDeliverTx{
 			Code:   xerr.Code(),
 			Log:    xerr.Error(),
-			Events: txctx.Events,
+			Events: events,
 		}
 	}
 	xerr = ctrler.txExecutor.ExecuteSync(txctx)
